@@ -124,8 +124,22 @@ fn run_torn(out: &mut Out, work: &str, seed: u64, thorough: bool) {
 			// trunk
 			let mut parent = 0usize;
 			let mut trunk = vec![0usize];
-			for _ in 0..6 {
-				parent = kit.new_block(parent, 2, &[])?;
+			// odd rounds: a trunk long enough (82) for compact() to really prune while the readers run (body tail 1 +
+			// horizon 20 + 60); its blocks at heights 7..10 spend the coinbases of heights 3..6, so the compaction has
+			// leaves to remove BELOW the outputs the readers poll (their data-file offsets move, their MMR positions do not)
+			let trunk_len = if round % 2 == 1 { 82 } else { 6 };
+			let cb_early = |kit: &Kit, id: usize| -> Option<usize> {
+				kit.blks[id].block.outputs().iter().find(|o| o.is_coinbase()).and_then(|o| kit.by_commit.get(&o.commitment()).cloned())
+			};
+			for h in 1..=trunk_len {
+				let mut specs = vec![];
+				if trunk_len > 10 && (7..=10).contains(&h) {
+					if let Some(oid) = cb_early(&kit, trunk[h - 4]) {
+						let v = kit.outs[oid].value - FEE;
+						specs.push(TxSpec { inputs: vec![oid], outputs: vec![(v, None)], kernel: KSpec::Plain(FEE) });
+					}
+				}
+				parent = kit.new_block(parent, 2, &specs)?;
 				trunk.push(parent);
 			}
 			let cb_of = |kit: &Kit, id: usize| -> Result<usize, String> {
@@ -148,7 +162,7 @@ fn run_torn(out: &mut Out, work: &str, seed: u64, thorough: bool) {
 			let tb = kit.build_tx(&TxSpec { inputs: vec![c2], outputs: vec![(vb, None)], kernel: KSpec::Plain(FEE) })?;
 			let spend = kit.build_tx(&TxSpec { inputs: vec![a_id, b_id], outputs: vec![(va + vb - FEE, None)], kernel: KSpec::Plain(FEE) })?;
 			let (ca, cb) = (kit.outs[a_id].commit, kit.outs[b_id].commit);
-			let p = trunk[6];
+			let p = trunk[trunk_len];
 			// X = [ta][tb], Y = [tb][ta]; works: X1 +2, X2 +2 (4); Y1 +1 (1), Y2 +4 (5); then +2 alternately
 			let x1 = add_block(&mut kit, p, 2, &[ta.clone()])?;
 			let x2 = add_block(&mut kit, x1, 2, &[tb.clone()])?;
@@ -225,6 +239,8 @@ fn run_torn(out: &mut Out, work: &str, seed: u64, thorough: bool) {
 			let torn_hits = Arc::new(AtomicUsize::new(0));
 			let polls = Arc::new(AtomicUsize::new(0));
 			let hdr_mixed = Arc::new(AtomicUsize::new(0));
+			let writer_ix = Arc::new(AtomicUsize::new(0));
+			let pruned = Arc::new(AtomicBool::new(false));
 			let stats: Arc<Mutex<BTreeMap<String, u64>>> = Arc::new(Mutex::new(BTreeMap::new()));
 			let later_blocks: Vec<(usize, char, Block)> = later.iter().map(|(id, w)| (*id, *w, blk(&kit, *id))).collect();
 			let proof_headers: Vec<BlockHeader> = [x2, y2].iter().chain(later.iter().map(|(id, _)| id)).map(|id| kit.blks[*id].block.header.clone()).collect();
@@ -235,7 +251,7 @@ fn run_torn(out: &mut Out, work: &str, seed: u64, thorough: bool) {
 			let mut handles = vec![];
 			// writer
 			{
-				let (subject, hist, steps, done, fails) = (subject.clone(), hist.clone(), steps.clone(), done.clone(), fails.clone());
+				let (subject, hist, steps, done, fails, writer_ix) = (subject.clone(), hist.clone(), steps.clone(), done.clone(), fails.clone(), writer_ix.clone());
 				let wseed = rng.next();
 				handles.push(std::thread::spawn(move || {
 					setup_globals();
@@ -252,9 +268,58 @@ fn run_torn(out: &mut Out, work: &str, seed: u64, thorough: bool) {
 							}
 							Err(_) => fails.lock().unwrap().push(format!("process_block(b{}) panicked", id)),
 						}
+						writer_ix.fetch_add(1, Ordering::SeqCst);
 						steps.fetch_add(1, Ordering::SeqCst);
 					}
 					done.store(true, Ordering::SeqCst);
+				}));
+			}
+			// service thread: compaction, state archive, fast validation racing the reorgs and the readers
+			{
+				let (subject, steps, done, fails, stats, pruned) = (subject.clone(), steps.clone(), done.clone(), fails.clone(), stats.clone(), pruned.clone());
+				let sseed = rng.next();
+				handles.push(std::thread::spawn(move || {
+					setup_globals();
+					let mut r = Rng::new(sseed);
+					let c = subject.c();
+					let mut local: BTreeMap<String, u64> = BTreeMap::new();
+					let mut k = 0u64;
+					while !done.load(Ordering::SeqCst) {
+						perturb(&mut r);
+						let res = std::panic::catch_unwind(AssertUnwindSafe(|| match k % 3 {
+							0 => {
+								let before = c.tail().map(|t| t.height).unwrap_or(0);
+								let r = c.compact();
+								let after = c.tail().map(|t| t.height).unwrap_or(0);
+								if after > before.max(1) {
+									pruned.store(true, Ordering::SeqCst);
+								}
+								format!("compact:{}{}", cls(&r), if after > before.max(1) { ":pruned" } else { "" })
+							}
+							1 => match c.txhashset_archive_header() {
+								Ok(h) => format!("txhashset_read:{}", cls(&c.txhashset_read(h.hash()))),
+								Err(e) => format!("txhashset_archive_header:err:{}", error_class(&e)),
+							},
+							_ => {
+								let r = c.validate(true);
+								if r.is_err() {
+									fails.lock().unwrap().push(format!("validate(fast) failed mid-run: {}", cls(&r)));
+								}
+								format!("validate_fast:{}", cls(&r))
+							}
+						}));
+						match res {
+							Ok(n) => *local.entry(n).or_insert(0) += 1,
+							Err(_) => fails.lock().unwrap().push(format!("service call {} panicked (0 compact, 1 txhashset_read, 2 validate)", k % 3)),
+						}
+						k += 1;
+						steps.fetch_add(1, Ordering::SeqCst);
+						std::thread::sleep(Duration::from_millis(2 + r.below(6)));
+					}
+					let mut s = stats.lock().unwrap();
+					for (k, v) in local {
+						*s.entry(k).or_insert(0) += v;
+					}
 				}));
 			}
 			for rid in 0..nreaders {
@@ -264,6 +329,7 @@ fn run_torn(out: &mut Out, work: &str, seed: u64, thorough: bool) {
 				let committed = committed.clone();
 				let mixed = mixed.clone();
 				let hdr_mixed = hdr_mixed.clone();
+				let writer_ix = writer_ix.clone();
 				let pos_answers = pos_answers.clone();
 				let proof_headers = proof_headers.clone();
 				let out_ids = out_ids.clone();
@@ -282,16 +348,21 @@ fn run_torn(out: &mut Out, work: &str, seed: u64, thorough: bool) {
 						}
 					};
 					let mut extra = 0;
+					// interleavings reached: which branch's state answered, and how often it changed between two
+					// successive polls of this reader / within how many distinct writer positions the polls fell
+					let mut last_branch = ' ';
+					let mut seen_ix: std::collections::BTreeSet<usize> = std::collections::BTreeSet::new();
 					loop {
 						if done.load(Ordering::SeqCst) {
 							extra += 1;
 							if extra > 20 { break; }
 						}
 						perturb(&mut r);
+						seen_ix.insert(writer_ix.load(Ordering::SeqCst));
 						let k = r.below(commits.len() as u64) as usize;
 						let (name, commit) = commits[k];
 						let (ax, ay) = &committed[name];
-						let op = r.below(9);
+						let op = r.below(11);
 						let res = std::panic::catch_unwind(AssertUnwindSafe(|| match op {
 							0 | 1 => {
 								let a = match c.get_unspent(commit) {
@@ -299,6 +370,12 @@ fn run_torn(out: &mut Out, work: &str, seed: u64, thorough: bool) {
 									Ok(None) => "none".into(),
 									Err(e) => format!("err:{:?}", e).chars().take(40).collect(),
 								};
+								let br = if a == ax.unspent { 'X' } else if a == ay.unspent { 'Y' } else { '?' };
+								if last_branch != ' ' && br != last_branch {
+									*local.entry("branch_switch_between_polls".into()).or_insert(0) += 1;
+								}
+								last_branch = br;
+								*local.entry(format!("answered_from_{}", br)).or_insert(0) += 1;
 								if a != ax.unspent && a != ay.unspent {
 									report(format!("get_unspent({}) answered {} - in every committed state it is {} (branch X) or {} (branch Y)", name, a, ax.unspent, ay.unspent));
 								}
@@ -359,6 +436,39 @@ fn run_torn(out: &mut Out, work: &str, seed: u64, thorough: bool) {
 								}
 								"validate"
 							}
+							9 | 10 => {
+								// scheduler perturbation AT a lock point the harness controls: take the guard through the Arc,
+								// keep it for a seeded time (writers and compaction queue behind it; with a writer queued new
+								// readers queue too), read under it, release
+								let us = r.below(1500);
+								if op == 9 {
+									let ts = c.txhashset();
+									let g = ts.read();
+									std::thread::sleep(Duration::from_micros(us));
+									let a = match g.get_unspent(commit) {
+										Ok(Some((oid, _))) if oid.commit == commit => true,
+										_ => false,
+									};
+									drop(g);
+									if !a {
+										report(format!("under a held txhashset.read() get_unspent({}) is not Some although it is unspent in every committed state", name));
+									}
+									"hold_ts_read"
+								} else {
+									let hp = c.header_pmmr();
+									let g = hp.read();
+									std::thread::sleep(Duration::from_micros(us));
+									let mh = g.head_hash();
+									let dh = c.header_head();
+									drop(g);
+									if let (Ok(m), Ok(d)) = (&mh, &dh) {
+										if *m != d.last_block_h {
+											report(format!("under a held header_pmmr.read(): MMR head {} but db header head {}", m, d.last_block_h));
+										}
+									}
+									"hold_hp_read"
+								}
+							}
 							_ => {
 								// the seeded read, emulated from outside: position under one lock hold, data under the next
 								if let Ok(p) = c.get_output_pos(&commit) {
@@ -380,6 +490,7 @@ fn run_torn(out: &mut Out, work: &str, seed: u64, thorough: bool) {
 						polls.fetch_add(1, Ordering::SeqCst);
 						steps.fetch_add(1, Ordering::SeqCst);
 					}
+					*local.entry("distinct_writer_positions_seen".into()).or_insert(0) += seen_ix.len() as u64;
 					let mut s = stats.lock().unwrap();
 					for (k, v) in local {
 						*s.entry(k).or_insert(0) += v;
@@ -439,12 +550,30 @@ fn run_torn(out: &mut Out, work: &str, seed: u64, thorough: bool) {
 				Ok(h) => fl.push(format!("final head {} is not the last delivered (heaviest) block {}", h.last_block_h, want)),
 				Err(_) => fl.push("head() failed".into()),
 			}
-			let v = subject.c().validate(true);
+			let v = subject.c().validate(false);
 			if v.is_err() {
-				fl.push(format!("validate(fast) after the run: {}", cls(&v)));
+				fl.push(format!("full validation after the run: {}", cls(&v)));
+			}
+			// the property's last sentence: the state is the one a sequential ordering of the submitted operations
+			// produces - a twin fed the same deliveries in order, one thread, no readers, no compaction
+			{
+				let twin = Subject::new(&format!("{}/torn_twin{}", work, round), &kit.genesis);
+				for id in trunk[1..].iter().chain([x1, x2, y1, y2].iter()).chain(later.iter().map(|(id, _)| id)) {
+					twin.deliver_block(&blk(&kit, *id));
+				}
+				let _ = twin.c().process_block_header(&kit.blks[extra].block.header, Options::SKIP_POW);
+				twin.deliver_block(&blk(&kit, extra));
+				let (a, b) = (format!("{} roots={} utxo={:?}", subject.head_str(&kit), subject.roots(), subject.utxo(&kit)), format!("{} roots={} utxo={:?}", twin.head_str(&kit), twin.roots(), twin.utxo(&kit)));
+				if a != b {
+					fl.push(format!("final state differs from the sequential twin: {} vs twin {}", a, b));
+				}
+				let tv = twin.c().validate(false);
+				if tv.is_err() {
+					fl.push(format!("the twin fails full validation: {}", cls(&tv)));
+				}
 			}
 			for f in &fl {
-				out.raw(&format!("#ORACLE-FAIL C17 torn round={} seed={}: history trunk P1..P6, X=[b{}:ta->A][b{}:tb->B], Y=[b{}:tb->B][b{}:ta->A], then alternately one block heavier: {}", round, seed, x1, x2, y1, y2, f));
+				out.raw(&format!("#ORACLE-FAIL C17 torn round={} seed={}: history trunk P1..P{}, X=[b{}:ta->A][b{}:tb->B], Y=[b{}:tb->B][b{}:ta->A], then alternately one block heavier: {}", round, seed, trunk_len, x1, x2, y1, y2, f));
 			}
 			let st = stats.lock().unwrap();
 			let mut s = String::new();
@@ -452,11 +581,11 @@ fn run_torn(out: &mut Out, work: &str, seed: u64, thorough: bool) {
 				s.push_str(&format!(" {}={}", k, v));
 			}
 			out.raw(&format!(
-				"#STAT torn round={} reorgs={} polls={} emulated_torn_hits={} header_for_output_on_other_fork={}{}",
-				round, overtakes, polls.load(Ordering::SeqCst), torn_hits.load(Ordering::SeqCst), hdr_mixed.load(Ordering::SeqCst), s
+				"#STAT torn round={} trunk={} compaction_pruned={} reorgs={} polls={} emulated_torn_hits={} header_for_output_on_other_fork={}{}",
+				round, trunk_len, pruned.load(Ordering::SeqCst), overtakes, polls.load(Ordering::SeqCst), torn_hits.load(Ordering::SeqCst), hdr_mixed.load(Ordering::SeqCst), s
 			));
 			out.line(
-				&format!("conc torn round={} overtakes={} readers={} seed={}", round, overtakes, nreaders, seed),
+				&format!("conc torn round={} trunk={} overtakes={} readers={} seed={}", round, trunk_len, overtakes, nreaders, seed),
 				if fl.is_empty() { "ok" } else { "failed" },
 			);
 			Ok(())
@@ -656,6 +785,33 @@ fn run_hdrmono(out: &mut Out, work: &str, seed: u64, thorough: bool) {
 				Ok(t) if t.last_block_h == best => {}
 				Ok(t) => fl.push(format!("final head at height {} is not the main tip", t.height)),
 				Err(_) => fl.push("head() failed".into()),
+			}
+			let v = subject.c().validate(false);
+			if v.is_err() {
+				fl.push(format!("full validation after the run: {}", cls(&v)));
+			}
+			// sequential twin: same operations, one thread (main headers, fork headers, blocks)
+			{
+				let twin = Subject::new(&format!("{}/hdr_twin{}", work, round), &kit.genesis);
+				for id in &main[1..=pre] {
+					twin.deliver_block(&kit.blks[*id].block);
+				}
+				let _ = twin.sync_headers(&main_h);
+				let _ = twin.sync_headers(&fork_h);
+				for id in &main[pre + 1..] {
+					twin.deliver_block(&kit.blks[*id].block);
+				}
+				let (a, b) = (format!("{} roots={}", subject.head_str(&kit), subject.roots()), format!("{} roots={}", twin.head_str(&kit), twin.roots()));
+				if a != b {
+					fl.push(format!("final state differs from the sequential twin: {} vs twin {}", a, b));
+				}
+				// every fork header is stored on both (a refused lighter chunk still stores its headers)
+				for h in &fork_h {
+					let (x, y) = (subject.c().get_block_header(&h.hash()).is_ok(), twin.c().get_block_header(&h.hash()).is_ok());
+					if x != y {
+						fl.push(format!("fork header at height {} stored on the subject: {} on the twin: {}", h.height, x, y));
+					}
+				}
 			}
 			for f in &fl {
 				out.raw(&format!("#ORACLE-FAIL C17 hdrmono round={} seed={}: main chain of {} blocks (difficulty 3 each, {} preloaded), lighter fork of {} headers on height {} (difficulty 1 each, tip work {} < {}): {}", round, seed, mlen, pre, flen, fork_at, fork_work, best_work, f));
